@@ -296,6 +296,19 @@ async fn run(script: &Value) -> Result<(), Fail> {
                         mm.clear();
                     }
                 }
+                "debug" => {
+                    // C12: "the session id never appears in the Debug output of the session"
+                    let text = format!("{:?}\n{:#?}", s, s);
+                    if let Some(found) = looks_like_uuid(&text) {
+                        check!(false, "{at}: the Debug output of the session contains what looks like a session id ({found}): {text}");
+                    }
+                    for id in mstore.keys().copied().chain(old_id) {
+                        let u = id.inner();
+                        for spelt in [u.hyphenated().to_string(), u.simple().to_string(), u.as_u128().to_string()] {
+                            check!(!text.to_lowercase().contains(&spelt.to_lowercase()), "{at}: the Debug output of the session contains the session id {spelt}");
+                        }
+                    }
+                }
                 "force_load" => {
                     s.force_load().await.map_err(|e| Fail(format!("{at}: error {e:?}")))?;
                     m.look(rec_now.as_ref(), allow);
@@ -543,6 +556,26 @@ async fn run(script: &Value) -> Result<(), Fail> {
         }
     }
     Ok(())
+}
+
+/// 8-4-4-4-12 hexadecimal digits, or 32 hexadecimal digits in a row
+fn looks_like_uuid(text: &str) -> Option<String> {
+    let b = text.as_bytes();
+    let hex = |c: u8| c.is_ascii_hexdigit();
+    let mut i = 0;
+    while i < b.len() {
+        if i + 36 <= b.len() {
+            let w = &b[i..i + 36];
+            if w.iter().enumerate().all(|(k, c)| if matches!(k, 8 | 13 | 18 | 23) { *c == b'-' } else { hex(*c) }) {
+                return Some(String::from_utf8_lossy(w).into_owned());
+            }
+        }
+        if i + 32 <= b.len() && b[i..i + 32].iter().all(|c| hex(*c)) {
+            return Some(String::from_utf8_lossy(&b[i..i + 32]).into_owned());
+        }
+        i += 1;
+    }
+    None
 }
 
 fn main() {
